@@ -416,11 +416,24 @@ func Run(sc *Scenario, frameCheck func(dir int, f *wire.Frame) string) Result {
 				defer rmu.Unlock()
 				if !pr && rr.Intn(100) < pct {
 					wnd := -1
+					var flags uint8
 					if t, err := DecodeTCP(proto, append(append([]byte(nil), hv...), pl.ToView()...)); err == nil && t != nil {
-						wnd = int(t.Window)
+						wnd, flags = int(t.Window), t.Flags
 					}
 					resMu.Lock()
 					res.Refused[d]++
+					if !res.Connected && wnd >= 0 {
+						// handshake bookkeeping: a refused segment was emitted by its stack and lost
+						switch {
+						case d == 1 && flags&rfc.SYN != 0:
+							res.Hs.SynAckEmitted++
+							res.Hs.SynAckDropped++
+						case d == 0 && flags&rfc.SYN == 0:
+							res.Hs.ClientEmitted++
+							res.Hs.ClientDropped++
+							res.Hs.SynAckUnanswered = false
+						}
+					}
 					if wnd >= 0 {
 						res.LastWndRefused[1-d] = wnd // window advertised to the sender of data direction 1-d
 					}
